@@ -244,7 +244,7 @@ def run_batch(prop, engine, tier, batch_seed, budget_s, max_runs=None, env=None,
     for w in range(nw):
         spawn(w, 0)
     alive = set(range(nw))
-    hard_deadline = worker_hard + watchdog + 90
+    hard_deadline = worker_hard + watchdog + 90 + 300  # (+ the warm-up allowance of the workers)
     t0 = time.time()
     agg["floor_index"] = min_index
     while alive:
